@@ -77,8 +77,11 @@ impl Ctx {
     }
     /// Marks the start of run `k` (the driver attributes a worker death to the last one).
     pub fn begin_run(&self, scenario: &str, k: u64) {
-        let mut e = std::io::stderr().lock();
-        let _ = writeln!(e, "@run {scenario} {k}");
+        {
+            let mut e = std::io::stderr().lock();
+            let _ = writeln!(e, "@run {scenario} {k}");
+        }
+        crate::common::watchdog_kick();
     }
     pub fn is_quick(&self) -> bool {
         self.tier == Tier::Quick
@@ -145,4 +148,39 @@ pub fn replay_envelope(property: &str, scenario: &str, variant: &str, body: Valu
         }
     }
     v
+}
+
+
+// ------------------------------------------------------------------------------------------
+// wall-clock watchdog (backstop only): a run that neither finishes nor ticks for a long time is a
+// hang; the process exits with code 99 so the driver can attribute it to the announced run.
+// ------------------------------------------------------------------------------------------
+use std::sync::atomic::{AtomicU64, Ordering};
+static LAST_KICK_MS: AtomicU64 = AtomicU64::new(0);
+static WATCHDOG_LIMIT_MS: AtomicU64 = AtomicU64::new(0);
+
+fn now_ms() -> u64 {
+    use std::time::{SystemTime, UNIX_EPOCH};
+    SystemTime::now().duration_since(UNIX_EPOCH).map(|d| d.as_millis() as u64).unwrap_or(0)
+}
+
+pub fn watchdog_kick() {
+    LAST_KICK_MS.store(now_ms(), Ordering::Relaxed);
+}
+
+/// Starts the watchdog: if more than `limit_s` seconds pass between two run announcements the
+/// process exits with status 99. The limit is far above any honest run (prover + verifier of the
+/// largest base take seconds); it decides nothing unless a run hangs.
+pub fn watchdog_start(limit_s: u64) {
+    WATCHDOG_LIMIT_MS.store(limit_s * 1000, Ordering::Relaxed);
+    watchdog_kick();
+    std::thread::spawn(|| loop {
+        std::thread::sleep(std::time::Duration::from_millis(500));
+        let last = LAST_KICK_MS.load(Ordering::Relaxed);
+        let lim = WATCHDOG_LIMIT_MS.load(Ordering::Relaxed);
+        if lim > 0 && now_ms().saturating_sub(last) > lim {
+            eprintln!("@hang no progress for {} s", lim / 1000);
+            std::process::exit(99);
+        }
+    });
 }
